@@ -48,12 +48,12 @@ theorem and_mask32 (x : Nat) (h : x < 4294967296) : x &&& 4294967292 = x / 4 * 4
 
 /-- numeral normalisation of a generated condition: literal `%`, `-`, `toNat`, casts of literals -/
 macro "guard_norm" : tactic =>
-  `(tactic| simp only [Int.reduceMod, Int.reduceNeg, Int.reduceSub, Int.reduceAdd, Int.reduceMul, Int.reduceToNat, Int.reducePow,
+  `(tactic| try simp only [Int.emod_emod, Int.reduceMod, Int.reduceNeg, Int.reduceSub, Int.reduceAdd, Int.reduceMul, Int.reduceToNat, Int.reducePow,
       Nat.reducePow, Nat.reduceMul, Nat.reduceAdd, Int.ofNat_eq_natCast, Int.cast_ofNat_Int] at *)
 
 /-- `b = true` for a disjunction of `decide`s → the proposition -/
 macro "guard_iff" : tactic =>
-  `(tactic| (simp only [gt_iff_lt, ge_iff_le, iff_true, iff_false, true_iff, false_iff, Bool.and_eq_false_iff, Bool.or_eq_false_iff, beq_eq_false_iff_ne, ne_eq, Bool.or_eq_true, Bool.and_eq_true, Bool.not_eq_true', decide_eq_true_eq,
+  `(tactic| (try simp only [gt_iff_lt, ge_iff_le, iff_true, iff_false, true_iff, false_iff, Bool.and_eq_false_iff, Bool.or_eq_false_iff, beq_eq_false_iff_ne, ne_eq, Bool.or_eq_true, Bool.and_eq_true, Bool.not_eq_true', decide_eq_true_eq,
       decide_eq_false_iff_not, Bool.false_eq_true, or_false, false_or, beq_iff_eq, bne_iff_ne, Bool.not_eq_eq_eq_not, Bool.not_true, Bool.not_false]))
 /-- Boolean equation `b₁ = b₂` between disjunctions of `decide`s → equivalence of propositions -/
 macro "guard_beq" : tactic => `(tactic| (rw [Bool.eq_iff_iff]; guard_iff))
